@@ -83,7 +83,9 @@ def check(tier, seed, replay=None):
             names = []
             for k in range(n):
                 nm = rnd.choice(["A", "col b", "x,y", 'q"t', "é", "n%d" % k, "a  b"]) + str(k)
-                names.append("".join(ch for ch in nm if ch not in forbid))
+                nm = "".join(ch for ch in nm if ch not in forbid)
+                # a name may be given twice: the row still has one field per selection
+                names.append(rnd.choice(names) if names and rnd.random() < 0.2 else nm)
             rows_in, rows = [], []
             for _ in range(rnd.choice([0, 1, 2, 3, 6])):
                 vals = [rand_field_value(rnd, forbid) for _ in range(n)]
